@@ -54,7 +54,7 @@ def find_func(tree: ast.AST, path: list[str]) -> ast.FunctionDef:
     for name in path:
         found = None
         for ch in ast.walk(node) if node is tree else ast.iter_child_nodes(node):
-            if isinstance(ch, (ast.FunctionDef, ast.ClassDef)) and ch.name == name:
+            if isinstance(ch, (ast.FunctionDef, ast.AsyncFunctionDef, ast.ClassDef)) and ch.name == name:
                 found = ch
                 break
         if found is None:
@@ -66,7 +66,7 @@ def find_func(tree: ast.AST, path: list[str]) -> ast.FunctionDef:
         if found is None:
             raise TranslateError(f"{'.'.join(path)}: not found")
         node = found
-    if not isinstance(node, ast.FunctionDef):
+    if not isinstance(node, (ast.FunctionDef, ast.AsyncFunctionDef)):
         raise TranslateError(f"{'.'.join(path)}: not a function")
     return node
 
@@ -347,3 +347,70 @@ class FnCron(Fn):
 if __name__ == "__main__":
     import sys
     print(translate(sys.argv[1] if len(sys.argv) > 1 else "/repo"))
+
+
+
+class FnReport(Fn):
+    """_Processor.report_to_broker: an if / elif / else chain over the outcome and the parameters in which every branch awaits
+    exactly ONE call of the message broker; translated to Ladder.decision (which call, with which new parameters)."""
+
+    def expr(self, e: ast.AST) -> tuple[str, str]:
+        if isinstance(e, ast.Attribute) and ast.unparse(e) == "result.success":
+            return "success", "bool"
+        if isinstance(e, ast.UnaryOp) and isinstance(e.op, ast.Not):
+            c, t = self.expr(e.operand)
+            self.want(t, "bool", e)
+            return f"(negb {c})", "bool"
+        return super().expr(e)
+
+    def decision(self, stmts: list[ast.stmt]) -> str:
+        stmts = [s for s in stmts if not (isinstance(s, ast.Expr) and isinstance(s.value, ast.Constant))]
+        if len(stmts) != 1:
+            raise TranslateError(f"report_to_broker: a branch with {len(stmts)} statements (one broker call expected)")
+        s = stmts[0]
+        if isinstance(s, ast.If):
+            if not s.orelse:
+                raise TranslateError("report_to_broker: an `if` without `else`: a delivery could end without a broker call")
+            c, t = self.expr(s.test)
+            self.want(t, "bool", s.test)
+            return f"(if {c} then {self.decision(s.body)} else {self.decision(s.orelse)})"
+        if isinstance(s, ast.Expr) and isinstance(s.value, ast.Await) and isinstance(s.value.value, ast.Call):
+            call = s.value.value
+            f = ast.unparse(call.func)
+            args = [ast.unparse(a) for a in call.args]
+            if call.keywords:
+                raise TranslateError(f"report_to_broker: keyword arguments in {ast.unparse(call)}")
+            if f == "self._conn.message_broker.ack" and args == ["key"]:
+                return "DAck"
+            if f == "self._conn.message_broker.nack" and args == ["key"]:
+                return "DNack"
+            if f == "self._conn.message_broker.requeue" and len(args) == 3 and args[:2] == ["key", "payload"]:
+                new = call.args[2]
+                if ast.unparse(new) == "parameters._prepare_reschedule()":
+                    return "(DResched (gen_prepare_reschedule p now))"
+                if isinstance(new, ast.Call) and ast.unparse(new.func) == "parameters._prepare_retry" and len(new.args) == 1 and not new.keywords:
+                    back = new.args[0]
+                    if isinstance(back, ast.Call) and ast.unparse(back.func) == "actor.retry_policy" and len(back.args) == 1 and not back.keywords:
+                        n, tn = self.expr(back.args[0])
+                        self.want(tn, "Z", back)
+                        return f"(DRetry (gen_prepare_retry p now (pol {n})))"
+            raise TranslateError(f"report_to_broker: unexpected broker call {ast.unparse(call)}")
+        raise TranslateError(f"report_to_broker: unexpected statement {ast.unparse(s)[:80]}")
+
+
+def translate_ladder(repo: str) -> str:
+    """coq/GenLadder.v: the disposition ladder of repid/_processor.py, regenerated from the current source."""
+    rel = "repid/_processor.py"
+    tree = ast.parse(Path(repo, rel).read_text())
+    node = find_func(tree, ["_Processor", "report_to_broker"])
+    names = [a.arg for a in node.args.args]
+    if names != ["self", "actor", "key", "payload", "parameters", "result"]:
+        raise TranslateError(f"report_to_broker: parameters {names}")
+    body = FnReport("report_to_broker", "decision", {"parameters": "p"}, {}).decision(node.body)
+    return "\n".join([
+        "(* GENERATED by harness/translate.py from /repo's current source - do not edit. *)",
+        "From Repid Require Import Base Sched GenSched Handle Ladder.", "",
+        f"(* {rel} _Processor.report_to_broker: which broker call ends the delivery, with which parameters; `pol` is the actor's",
+        "   retry policy (microseconds), `success` is result.success *)",
+        "Definition gen_decide (pol : Z -> Z) (p : params) (success : bool) (now : Z) : decision :=",
+        f"  {body}.", ""])
